@@ -28,6 +28,7 @@ mod c12;
 mod c13;
 mod c14;
 mod c15;
+mod c16;
 mod c17;
 mod c18;
 
@@ -58,6 +59,7 @@ fn checks() -> Vec<Check> {
         Check { id: "C13", level: "model_checking", run: c13::run, replay: Some(c13::replay) },
         Check { id: "C14", level: "model_checking", run: c14::run, replay: Some(c14::replay) },
         Check { id: "C15", level: "model_checking", run: c15::run, replay: Some(c15::replay) },
+        Check { id: "C16", level: "model_checking", run: c16::run, replay: Some(c16::replay) },
         Check { id: "C17", level: "model_checking", run: c17::run, replay: Some(c17::replay) },
         Check { id: "C18", level: "model_checking", run: c18::run, replay: Some(c18::replay) },
     ]
